@@ -19,25 +19,25 @@ import (
 
 // World holds the loaded program and the contract registry.
 type World struct {
-	fset      *token.FileSet
-	roots     []*packages.Package
-	byPath    map[string]*packages.Package
-	byName    map[string][]*packages.Package
-	prog      *ssa.Program
-	contracts map[string]*FuncContract
-	defines   map[string]*DefineSpec
-	abstracts map[string]*AbstractSpec
-	axioms    []*AxiomSpec
-	sorts     map[string]bool
-	ghosts    map[string]*GhostField
-	ignores   []*regexp.Regexp
-	funcs     map[string]*ssa.Function
-	specFiles []string
-	impls     []ImplSpec
-	inits     []GhostInit
-	monitors  map[string]*FuncContract
-	closeOnly map[string]bool // "pkgpath.Type.field"
-	protoErrs []string        // violations of the syntactic close-only discipline
+	fset         *token.FileSet
+	roots        []*packages.Package
+	byPath       map[string]*packages.Package
+	byName       map[string][]*packages.Package
+	prog         *ssa.Program
+	contracts    map[string]*FuncContract
+	defines      map[string]*DefineSpec
+	abstracts    map[string]*AbstractSpec
+	axioms       []*AxiomSpec
+	sorts        map[string]bool
+	ghosts       map[string]*GhostField
+	ignores      []*regexp.Regexp
+	funcs        map[string]*ssa.Function
+	specFiles    []string
+	impls        []ImplSpec
+	inits        []GhostInit
+	monitors     map[string]*FuncContract
+	closeOnly    map[string]bool // "pkgpath.Type.field"
+	protoErrs    []string        // violations of the syntactic close-only discipline
 	calledProved map[string]bool
 }
 
